@@ -885,11 +885,12 @@ class FnTranslator:
         return f"{lname} {argstr}".strip(), rty, self.conj(*[p[1] for p in parts], f"({okname} {argstr})".replace(" )", ")"))
 
     def match_option(self, scrut, sok, tmp, body_term, body_ok):
-        """match scrut with | none => none | some tmp => body"""
-        term = f"(match {scrut} with\n  | none => none\n  | some {tmp} =>\n  {body_term})"
-        ok = None
+        """`scrut : Option _` may be `none` (out of fuel): continue with its value bound to `tmp`.
+        Emitted with `Option.bind` / `Option.elim`, not `match`: unfolding a definition whose body is a `match` on a
+        call of another fuel-indexed function makes the kernel evaluate machine arithmetic on open terms."""
+        term = f"({scrut}).bind fun {tmp} =>\n  {body_term}"
         if body_ok:
-            ok = self.conj(sok, f"(match {scrut} with\n  | none => true\n  | some {tmp} =>\n  {body_ok})")
+            ok = self.conj(sok, f"(({scrut}).elim true fun {tmp} =>\n  {body_ok})")
         else:
             ok = sok
         return term, ok
